@@ -32,6 +32,7 @@ type RunResult struct {
 	WallUS     int64          `json:"wall_us"`
 	Inconclusive int          `json:"inconclusive,omitempty"`
 	Wedged     bool           `json:"wedged,omitempty"`
+	Captured   map[string][]string `json:"-"` // final tables for metamorphic comparisons
 }
 
 // Task is an operation issued on its own goroutine so that a blocking (deadlocking)
@@ -119,6 +120,25 @@ func (w *World) exec(i int, s *Step) {
 	case "connect2":
 		if p != nil {
 			p.Connect()
+		}
+	case "peer_auto":
+		if p != nil {
+			p.AutoOpen = s.On
+			if s.Open != nil {
+				o := *s.Open
+				p.OpenOverride = &o
+			}
+		}
+	case "send_open":
+		if p != nil && p.conn != nil {
+			if s.Open != nil {
+				o := *s.Open
+				p.OpenOverride = &o
+			}
+			p.Send(EncodeOpen(p.openSpec()))
+			if p.state == psIdle {
+				p.state = psOpenSent
+			}
 		}
 	case "announce", "withdraw":
 		if p == nil || p.conn == nil {
@@ -309,6 +329,9 @@ func runInBubble(t *testing.T, plan *Plan, opt RunOpts, res *RunResult) {
 		res.TraceHash = env.TraceHash()
 		res.SimTimeNS = int64(env.Sim.Now())
 		res.ShapeHash = shapeHash(w)
+		if c, ok := w.Data["captured"].(map[string][]string); ok {
+			res.Captured = c
+		}
 		if opt.KeepTrace {
 			res.Trace = env.TraceDump()
 		}
